@@ -517,7 +517,7 @@ func c09Run(c *Case) {
 func init() {
 	register(&Prop{
 		ID: "C09", Level: "exploration",
-		Rule: "sampled histories of 3-25 statements over 3 variables and $-paths into a generated document: stores to existing/missing/unset bases (chains to depth 4; indices in range, at length, past the end, negative in and out of range), compound assignments, ++/-- (value of prefix/postfix forms printed), reads, aliasing (b = a, containers stored in containers, parameters, loop variables) followed by element stores through one name; after EVERY statement the program prints json() of every live variable and of $, and the run ends with the -o document: all compared path by path with the reference model's heap. Candidate statements that would leave the stated semantics are discarded using the model. Read-only slice: {print e} / e{} / printf %v with e free of assignments and mutating calls: -o document must equal the input. 7 enumerated alias-resize forms (length change through one of two references). Non-trivial = history with >= 1 store and >= 2 statements (every statement is followed by a dump of all other locations); distinct by program text.",
+		Rule:          "sampled histories of 3-25 statements over 3 variables and $-paths into a generated document: stores to existing/missing/unset bases (chains to depth 4; indices in range, at length, past the end, negative in and out of range), compound assignments, ++/-- (value of prefix/postfix forms printed), reads, aliasing (b = a, containers stored in containers, parameters, loop variables) followed by element stores through one name; after EVERY statement the program prints json() of every live variable and of $, and the run ends with the -o document: all compared path by path with the reference model's heap. Candidate statements that would leave the stated semantics are discarded using the model. Read-only slice: {print e} / e{} / printf %v with e free of assignments and mutating calls: -o document must equal the input. 7 enumerated alias-resize forms (length change through one of two references). Non-trivial = history with >= 1 store and >= 2 statements (every statement is followed by a dump of all other locations); distinct by program text.",
 		NumCases:      c09Cases,
 		Run:           c09Run,
 		MinConclusive: func(tier string) int { return 3000 },
